@@ -67,7 +67,7 @@ def lake_build(targets, timeout=3000):
 def props_files(pid):
     """Props/<pid>.lean and Props/<pid><Suffix>.lean (e.g. C01Framing.lean)."""
     d = os.path.join(LEAN, "Amshan", "Props")
-    return sorted(os.path.join(d, f) for f in os.listdir(d) if re.fullmatch(re.escape(pid) + r"[A-Za-z_]*\.lean", f))
+    return sorted(os.path.join(d, f) for f in os.listdir(d) if re.fullmatch(re.escape(pid) + r"([A-Za-z_][A-Za-z0-9_]*)?\.lean", f))
 
 
 def props_modules(pid):
